@@ -1,4 +1,6 @@
 (* PkgChk.v — the per-step checkers the correspondence evaluates (definitions only).
+   FX = the variant of the model that mirrors the tree under test: FIXED, or FIXED without the repair of F35 / F42 when the
+   harness's probe finds the tree without it (those two are then reported by their own detectors).
    A case is (fs, d, op, fs', d', result): the implementation's abstract state before the operation, the operation,
    its state and result afterwards.  The model (with every repair, FIXED) is stepped from the same pre-state. *)
 From Coq Require Import List ZArith Bool Arith.
@@ -28,9 +30,9 @@ Definition rdf_entry_dangling (fs : cfs) (d : cdoc) (o : cop) (fs' : cfs) (d' : 
   | Some _, Some _, None => memz RDF (declared (entries_of fs' d'))
   | _, _, _ => false
   end.
-Definition chk04 (c : case) : nat :=
+Definition chk04 (FX : fixes) (c : case) : nat :=
   let '(fs, d, o, fs', d', r) := c in
-  let '((fsm, dm), rm) := cstep FIXED (fs, d) o in
+  let '((fsm, dm), rm) := cstep FX (fs, d) o in
   if negb (cwfb fs' d') then 5
   else if cPkgOKb fsm dm && negb (cPkgOKb fs' d') then 1
   else if match written fs' o, written fsm o with
@@ -68,9 +70,9 @@ Definition rdf_replaced (fs : cfs) (d : cdoc) (o : cop) (fs' : cfs) (d' : cdoc) 
       | None => false end
   | _, _ => false
   end.
-Definition chk03 (c : case) : nat :=
+Definition chk03 (FX : fixes) (c : case) : nat :=
   let '(fs, d, o, fs', d', r) := c in
-  let '((fsm, dm), rm) := cstep FIXED (fs, d) o in
+  let '((fsm, dm), rm) := cstep FX (fs, d) o in
   if negb (cwfb fs' d') then 5
   else if negb (view_eqb_on (match o with ODelPart _ | OAddFile _ _ _ | OImport _ _ _ => fun n => negb (n =? MANIFEST) | _ => fun _ => true end)
                             fs' d' fsm dm) then 1
@@ -85,9 +87,9 @@ Definition chk03 (c : case) : nat :=
    4: flat XML export differs from the model's   5: abstraction   6: (other operations) part map differs from the model's   9: fidelity *)
 Definition view_eqb_strict (fs1 : cfs) (d1 : cdoc) (fs2 : cfs) (d2 : cdoc) : bool :=
   forallb (fun n => opt_eqb ccont_eqb (cview fs1 d1 n) (cview fs2 d2 n)) (cnames fs1 d1 ++ cnames fs2 d2).
-Definition chk11 (c : case) : nat :=
+Definition chk11 (FX : fixes) (c : case) : nat :=
   let '(fs, d, o, fs', d', r) := c in
-  let '((fsm, dm), rm) := cstep FIXED (fs, d) o in
+  let '((fsm, dm), rm) := cstep FX (fs, d) o in
   if negb (cwfb fs' d') then 5
   else match is_save o with
        | Some (t, pk, pty) =>
@@ -109,13 +111,13 @@ Definition chk11 (c : case) : nat :=
    1: the clone is not equal to the original at birth   2: cloning changed the original   3: the clone is not the model's clone
    4: an operation on one document changed the other (part map or bookkeeping)   5: abstraction   6: part map differs from the
    model's step   7: result differs   9: fidelity *)
-Definition chk10 (c : case10) : nat :=
+Definition chk10 (FX : fixes) (c : case10) : nat :=
   let '(fs, d, tw, o, fs', d', tw', r) := c in
-  let '((fsm, dm), rm) := cstep FIXED (fs, d) o in
+  let '((fsm, dm), rm) := cstep FX (fs, d) o in
   if negb (cwfb fs' d') then 5
   else match o with
        | OClone =>
-           let '(origm, clonem) := cd_clone FIXED fs d in
+           let '(origm, clonem) := cd_clone FX fs d in
            if negb (view_eqb_strict fs' d' fs d) then 1
            else if has_twin tw' && negb (view_eqb_strict fs' tw' fs d) then 2
            else if negb (view_eqb fs' d' fs clonem) then 3
@@ -128,9 +130,9 @@ Definition chk10 (c : case10) : nat :=
 
 (* C04 with a twin (the other one of original / clone): as chk04 on the operated document, and
    6: the operation on one document broke PkgOK of the other (state shared between clone and original) *)
-Definition chk04t (c : case10) : nat :=
+Definition chk04t (FX : fixes) (c : case10) : nat :=
   let '(fs, d, tw, o, fs', d', tw', r) := c in
-  let k := chk04 (fs, d, o, fs', d', r) in
+  let k := chk04 FX (fs, d, o, fs', d', r) in
   match k with
   | O | 9%nat =>
       if has_twin tw && negb (match o with OClone => true | _ => false end) && cPkgOKb fs tw && negb (cPkgOKb fs' tw') then 6%nat else k
